@@ -605,21 +605,44 @@ fn panic_message(p: &Box<dyn std::any::Any + Send>) -> String {
 /// is a variable, `name = value` with the value taken from the instantiated query term, joined by
 /// ", ". `dedup` lists a variable that occurs twice only at its first occurrence.
 fn reference_answer(goal: &Goal, ss: &Rc<SubstitutionSet>, dedup: bool) -> String {
-    let result = goal.replace_variables(ss);
     let mut parts: Vec<String> = vec![];
     let mut seen: Vec<String> = vec![];
-    if let (Goal::ComplexGoal(Unifiable::SComplex(q)), Unifiable::SComplex(r)) = (goal, &result) {
-        for i in 1..q.len().min(r.len()) {
+    if let Goal::ComplexGoal(Unifiable::SComplex(q)) = goal {
+        for i in 1..q.len() {
             if let Unifiable::LogicVar { name, .. } = &q[i] {
                 if dedup && seen.contains(name) {
                     continue;
                 }
                 seen.push(name.clone());
-                parts.push(format!("{} = {}", name, r[i]));
+                parts.push(format!("{} = {}", name, instantiate(&q[i], ss, 0)));
             }
         }
     }
     parts.join(", ")
+}
+
+/// The harness's own instantiation of a term under a substitution set (the engine's
+/// replace_variables and get_ground_term are under test): a bound variable is replaced by the
+/// instantiation of what it is bound to, to any depth; compound terms and lists are rebuilt
+/// around their instantiated parts; everything else is copied.
+fn instantiate(t: &Unifiable, ss: &SubstitutionSet, depth: usize) -> Unifiable {
+    if depth > 4000 {
+        return t.clone(); // a cyclic binding: not this function's business
+    }
+    match t {
+        Unifiable::LogicVar { id, .. } => match ss.get(*id) {
+            Some(Some(bound)) => instantiate(bound, ss, depth + 1),
+            _ => t.clone(),
+        },
+        Unifiable::SComplex(terms) => Unifiable::SComplex(terms.iter().map(|x| instantiate(x, ss, depth + 1)).collect()),
+        Unifiable::SLinkedList { term, next, count, tail_var } => Unifiable::SLinkedList {
+            term: Box::new(instantiate(term, ss, depth + 1)),
+            next: Box::new(instantiate(next, ss, depth + 1)),
+            count: *count,
+            tail_var: *tail_var,
+        },
+        other => other.clone(),
+    }
 }
 
 fn format_answer(goal: &Goal, ss: &Rc<SubstitutionSet>) -> String {
@@ -743,27 +766,36 @@ fn drain() -> bool {
     simtime::sleepers() == 0
 }
 
+/// Marks, as first element of a version, the other program of `Op::Reload`.
+pub const ALT_PROGRAM: usize = usize::MAX;
+
+/// The version that a Reload op leads to.
+pub fn version_after_reload(cur: &[usize]) -> Vec<usize> {
+    if cur.first() == Some(&ALT_PROGRAM) { vec![] } else { vec![ALT_PROGRAM] }
+}
+
 /// The knowledge-base versions a history goes through: version 0 is the initial program, every
-/// Assert op appends one extra clause. Returns the versions in order of first appearance.
+/// Assert op appends one extra clause, every Reload op switches to the other program (without the
+/// extra clauses). Returns the versions in order of first appearance.
 pub fn kb_versions(scn: &Scenario) -> Vec<Vec<usize>> {
     let mut versions: Vec<Vec<usize>> = vec![vec![]];
     let mut cur: Vec<usize> = vec![];
     for op in &scn.history {
-        if let Op::Assert { c } = op {
-            if *c < scn.extra_clauses.len() {
-                cur.push(*c);
-                if !versions.contains(&cur) {
-                    versions.push(cur.clone());
-                }
-            }
+        match op {
+            Op::Assert { c } if *c < scn.extra_clauses.len() => cur.push(*c),
+            Op::Reload => cur = version_after_reload(&cur),
+            _ => continue,
+        }
+        if !versions.contains(&cur) {
+            versions.push(cur.clone());
         }
     }
     versions
 }
 
-fn clauses_of_version(scn: &Scenario, version: &[usize]) -> Vec<Clause> {
-    let mut v = scn.clauses.clone();
-    for c in version {
+pub fn clauses_of_version(scn: &Scenario, version: &[usize]) -> Vec<Clause> {
+    let (mut v, extras) = if version.first() == Some(&ALT_PROGRAM) { (scn.alt_clauses(), &version[1..]) } else { (scn.clauses.clone(), version) };
+    for c in extras {
         v.push(scn.extra_clauses[*c].clone());
     }
     v
@@ -972,6 +1004,22 @@ fn run_body(scn: &Scenario, opts: ExecOpts, baselines: &Result<Vec<Vec<Baseline>
                         }
                         Err(p) => OpResult::Panic(panic_message(&p)),
                     }
+                }
+            }
+            Op::Reload => {
+                handles.clear();
+                newest = None;
+                let next = version_after_reload(&asserted);
+                let clauses = clauses_of_version(scn, &next);
+                // SAFETY: no query instance is alive (handles cleared just above); the assignment
+                // drops the old table and moves the new one to the same address
+                match catch_unwind(AssertUnwindSafe(|| unsafe { *kb_ptr = build_kb(&clauses) })) {
+                    Ok(()) => {
+                        asserted = next;
+                        version = rec.versions.iter().position(|v| *v == asserted).unwrap_or(0);
+                        OpResult::Asserted { version }
+                    }
+                    Err(p) => OpResult::Panic(panic_message(&p)),
                 }
             }
             Op::Next { h } => match handles.get(h) {
